@@ -333,6 +333,25 @@ func (x *Exec) addEdge(fr *frame, from, to *ssa.BasicBlock, st *State, cond Term
 		x.backEdge(fr, fr.loops[to], st, cond)
 		return
 	}
+	// an edge that leaves a loop from inside its body (not from the loop head): "loop N break" clauses
+	if fr.contract != nil {
+		for _, li := range fr.loops {
+			if li.body[from] && !li.body[to] && from != li.header {
+				if lc := fr.contract.Loops[li.ordinal]; lc != nil && len(lc.Breaks) > 0 {
+					bst := st.Clone()
+					bst.Reach = cond
+					if h := fr.headSt[li.header]; h != nil {
+						bst.HeadSt = h
+					}
+					env := x.invEnv(fr, bst)
+					for k, bc := range lc.Breaks {
+						x.obligeKnown(env, fmt.Sprintf("%s#loop%d.break%d.%d", shortFn(fr.fn), li.ordinal, k, x.bump(fr, fmt.Sprintf("brk%d", li.ordinal))), "break",
+							x.pos(from.Instrs[len(from.Instrs)-1].Pos()), bc.Text, cond, env.evalGoal(bc.Expr))
+					}
+				}
+			}
+		}
+	}
 	fr.in[to] = append(fr.in[to], edge{st: st, cond: cond, from: from})
 }
 
